@@ -761,6 +761,7 @@ def run(ctx):
                           impl=im, model=mo)
         ctx.tie("T2 from_meshio vs Model.Structured.from_meshio_" + ("fixed" if REPAIRED["F-C07b"] else "pinned"))
     ctx.extra["model_variant"] = {k: ("repaired" if v else "pinned") for k, v in REPAIRED.items()}
+    ctx.notes = sorted(set(ctx.notes))
     import json
     ctx.violations.sort(key=lambda v: len(json.dumps(v.get("case"), default=str)))      # the smallest failing case of each kind is the replay
     ctx.rule = ("grids with extents 0-3 per axis in every non-empty subset of meshed directions (each subset forced 10 times), image grids "
